@@ -62,6 +62,18 @@ def run(ctx):
                 r.ok(rule, 'verify:Good', 'Good only on the Ok edge of asymmetric_verify_signature', loc=b.loc)
             else:
                 r.fail(rule, 'verify:Good', 'verify_signature_data returns Good without the signature verification having succeeded', loc=b.loc)
+    # the verdict variable of asymmetric_verify_signature is the primitive's boolean on every arm
+    avb = db.body(SP + 'asymmetric_verify_signature')
+    if avb is not None:
+        Fv = ctx.facts(avb)
+        defs = named_local_defs(avb, Fv, 'result')
+        badd = [d for d in defs if not re.search(r'^Try::branch\(PKey::verify_\w+\(.*\)\)@Continue\.0$', d)]
+        oks = result_ctor_sites(avb, 'Ok')
+        true_edge = all(any(l[0] == 'truth' and l[2] is True and l[1][0] == 'place' for l, e in Fv.literals_at(bb, si)) for bb, si, pl in oks) and bool(oks)
+        if defs and not badd and true_edge:
+            r.ok(rule, 'verify:verdict', 'Ok(()) only when `result` is true, and `result` is the verify_* boolean on all %d arms' % len(defs), loc=avb.loc)
+        else:
+            r.fail(rule, 'verify:verdict', 'asymmetric_verify_signature can succeed although the primitive reported a mismatch (%s)' % ((badd or ['Ok not on the true edge'])[0][:100]), loc=avb.loc)
     # policy -> primitive pair
     rule = 'sign-verify-table'
     sb = db.body(SP + 'asymmetric_sign'); vb2 = db.body(SP + 'asymmetric_verify_signature')
